@@ -11,7 +11,9 @@ from html.parser import HTMLParser
 import common, gen, configs
 
 LEVEL = "other"
-THEOREMS = ["Mistune.escape_eq_flatMap", "Mistune.escape_roundtrip", "Mistune.iterRender_length"]
+THEOREMS = ["Mistune.escape_eq_flatMap", "Mistune.escape_roundtrip", "Mistune.iterRender_length",
+            "Mistune.evalTmpl_pass", "Mistune.evalTmpl_leaf", "Mistune.leaves_in_order", "Mistune.leaves_in_order_doc", "Mistune.templates_passTypes", "Mistune.templates_leafOps",
+            "Mistune.templates_none_opaque"]
 
 VOID = {"br", "hr", "img", "input"}
 BLOCK_EL = {"p", "div", "ul", "ol", "li", "blockquote", "pre", "table", "thead", "tbody", "tr", "td", "th", "h1", "h2", "h3", "h4", "h5", "h6", "hr", "dl", "dt", "dd", "section",
